@@ -7,7 +7,8 @@ RULE = ("each obligation is one Kani/CBMC query: ONE real FreeList<T> operation 
         "re-established; non-trivial = covers 'cursor wrapped around', 'some handle is held', 'something reclaimed' satisfied")
 
 SPECS = [p_kani.Spec("steel-core", "steel-core/src/values/closed.rs", "heap.rs", "verif_heap")]
-FUNCS = ["values::closed::FreeList<T>::{allocate, weak_collection, collect_on_condition, mark_all_unreachable, recount, percent_full}",
+FUNCS = ["values::closed::FreeList<T>::{allocate, weak_collection, collect_on_condition, mark_all_unreachable, recount, percent_full, grow_by}",
+         "values::closed::Roots::{root, free, increment_generation}",
          "values::closed::{HeapRef::get, HeapAllocated::{new, is_reachable, mark_reachable, reset}}"]
 ASSUME = [
     "FreeList<T> is instantiated at T = u8 (HeapAble for u8 lives in the harness); the generic code is the repository's",
@@ -20,7 +21,9 @@ ASSUME = [
 def plan(tier):
     q = [{"h": "heap_weak_collection_step", "sym": "reachable[3], value[3], held[3], cursor"},
          {"h": "heap_allocate_step", "sym": "reachable[3], value[3], held[3], cursor, v: u8"}]
-    t = [{"h": "heap_reset_and_recount_step", "sym": "pre-state + marked[3]"}]
+    t = [{"h": "heap_reset_and_recount_step", "sym": "pre-state + marked[3]"},
+         {"h": "heap_roots_history", "sym": "root(a); increments; root(b); increments; free one token"},
+         {"h": "heap_grow_step", "sym": "any valid 3-slot state incl. a full heap; grow_by(2)"}]
     return q + (t if tier == "thorough" else [])
 
 
